@@ -1,8 +1,124 @@
-/- PyodaModel.Text — placeholder until the area is modelled. -/
+/-
+  PyodaModel.Text — the modelled subset of the text engine (area "Text", properties C07, C08, C17):
+  numeric primitives (`Text/Numeric.lean`), the built-in ISO patterns (`Text/Iso.lean`), the standard
+  library's ISO writers (`Text/PyIso.lean`), and the line-protocol handler.
+
+  Ops (text arguments are lower-case hex of the UTF-8 encoding, `-` = empty):
+    num.pad v n | num.pad2 v | num.pad4 v | num.frac v len scale | num.fract v len scale bufHex   → textHex
+    num.digits textHex min max | num.fraction textHex max scale min | num.int64 textHex  → ok value index | fail
+    iso.fmt <kind> fields…   → textHex
+    iso.parse <kind> textHex → ok fields… | fail | !err
+    pyiso.date y m d | pyiso.time microsecondOfDay | pyiso.offset seconds → textHex
+  kinds: date (y m d) | time, timelong, timegen (nanosecond of day) | dt, dtgen, dtbcl, inst, instgen (y m d nod)
+         | off, offz (seconds)
+-/
 import PyodaModel.Prelude
+import PyodaModel.Text.Numeric
+import PyodaModel.Text.Iso
+import PyodaModel.Text.PyIso
 
 namespace Pyoda.Text
 
-def handle (_toks : List String) : Option String := none
+def decodeText (h : String) : Option Text := do
+  let bs ← parseHex? h
+  let s ← String.fromUTF8? (ByteArray.mk (bs.map UInt8.ofNat).toArray)
+  pure s.toList
+
+def encodeText (t : Text) : String :=
+  showHex ((String.ofList t).toUTF8.toList.map (·.toNat))
+
+def showScan (total : Nat) : Option (Int × Text) → String
+  | none => "fail"
+  | some (v, rest) => s!"ok {v} {total - rest.length}"
+
+def showScanN (total : Nat) : Option (Nat × Text) → String
+  | none => "fail"
+  | some (v, rest) => s!"ok {v} {total - rest.length}"
+
+def showParse {α} (f : α → String) : R (Option α) → String
+  | .error e => "!" ++ e.name
+  | .ok none => "fail"
+  | .ok (some v) => "ok " ++ f v
+
+def show3 (v : Int × Int × Int) : String := showInts [v.1, v.2.1, v.2.2]
+def show4 (v : Int × Int × Int × Int) : String := showInts [v.1, v.2.1, v.2.2.1, v.2.2.2]
+
+def decLim : Int := 1000000000000000000000000000
+
+def isoFmt (kind : String) (a : List Int) : Option String :=
+  match kind, a with
+  | "date", [y, m, d] => some (encodeText (fmtIsoDate y m d))
+  | "time", [n] => some (encodeText (fmtIsoTime n))
+  | "timelong", [n] => some (encodeText (fmtIsoTimeLong n))
+  | "timegen", [n] => some (encodeText (fmtIsoTimeGeneral n))
+  | "dt", [y, m, d, n] => some (encodeText (fmtIsoDateTime y m d n))
+  | "dtgen", [y, m, d, n] => some (encodeText (fmtIsoDateTimeGeneral y m d n))
+  | "dtbcl", [y, m, d, n] => some (encodeText (fmtIsoDateTimeBcl y m d n))
+  | "inst", [y, m, d, n] => some (encodeText (fmtIsoInstant y m d n))
+  | "instgen", [y, m, d, n] => some (encodeText (fmtInstantGeneral y m d n))
+  | "off", [s] => some (encodeText (fmtOffG s))
+  | "offz", [s] => some (encodeText (fmtOffGZ s))
+  | _, _ => none
+
+def isoParse (kind : String) (t : Text) : Option String :=
+  match kind with
+  | "date" => some (showParse show3 (parseIsoDate t))
+  | "time" => some (showParse toString (parseIsoTime t))
+  | "timelong" => some (showParse toString (parseIsoTimeLong t))
+  | "timegen" => some (showParse toString (parseIsoTimeGeneral t))
+  | "dt" => some (showParse show4 (parseIsoDateTime t))
+  | "dtgen" => some (showParse show4 (parseIsoDateTimeGeneral t))
+  | "dtbcl" => some (showParse show4 (parseIsoDateTimeBcl t))
+  | "inst" => some (showParse show4 (parseIsoInstant t))
+  | "instgen" => some (showParse show4 (parseInstantGeneral t))
+  | "off" => some (showParse toString (parseOffG t))
+  | "offz" => some (showParse toString (parseOffGZ t))
+  | _ => none
+
+def handle (toks : List String) : Option String :=
+  match toks with
+  | ["num.pad", v, n] => do
+      let v ← parseInt? v; let n ← parseInt? n
+      if n < 0 then none else some (encodeText (leftPad v n.toNat))
+  | ["num.pad2", v] => do let v ← parseInt? v; some (encodeText (format2 v))
+  | ["num.pad4", v] => do let v ← parseInt? v; some (encodeText (format4 v))
+  | ["num.frac", v, len, scale] => do
+      let v ← parseInt? v; let len ← parseInt? len; let scale ← parseInt? scale
+      if len < 0 ∨ scale < 0 then none
+      else if v ≤ -decLim ∨ v ≥ decLim then some "!dom"
+      else some (encodeText (appendFraction v len.toNat scale.toNat))
+  | ["num.fract", v, len, scale, buf] => do
+      let v ← parseInt? v; let len ← parseInt? len; let scale ← parseInt? scale
+      let buf ← decodeText buf
+      if len < 0 ∨ scale < 0 then none
+      else if v ≤ -decLim ∨ v ≥ decLim then some "!dom"
+      else some (encodeText (appendFractionTruncate v len.toNat scale.toNat buf))
+  | ["num.digits", t, mn, mx] => do
+      let t ← decodeText t; let mn ← parseInt? mn; let mx ← parseInt? mx
+      if mn < 0 ∨ mx < 0 then none else some (showScanN t.length (parseDigits mn.toNat mx.toNat t))
+  | ["num.fraction", t, mx, scale, mn] => do
+      let t ← decodeText t; let mx ← parseInt? mx; let scale ← parseInt? scale; let mn ← parseInt? mn
+      if mn < 0 ∨ mx < 0 ∨ scale < 0 then none
+      else if mx > scale ∨ scale > 15 then some "!dom"
+      else some (showScanN t.length (parseFraction mx.toNat scale.toNat mn.toNat t))
+  | ["num.int64", t] => do
+      let t ← decodeText t
+      some (showScan t.length (parseInt64 t))
+  | "iso.fmt" :: kind :: args => do
+      let a ← parseInts? args
+      isoFmt kind a
+  | ["iso.parse", kind, t] => do
+      let t ← decodeText t
+      isoParse kind t
+  | ["pyiso.date", y, m, d] => do
+      let y ← parseInt? y; let m ← parseInt? m; let d ← parseInt? d
+      if y < 0 ∨ m < 0 ∨ d < 0 then none else some (encodeText (pyDateIso y.toNat m.toNat d.toNat))
+  | ["pyiso.time", us] => do
+      let us ← parseInt? us
+      if us < 0 then none else some (encodeText (pyTimeIso us.toNat))
+  | ["pyiso.offset", s] => do
+      let s ← parseInt? s
+      some (encodeText (pyOffsetIso s))
+  | _ => none
 
 end Pyoda.Text
